@@ -559,6 +559,7 @@ theorem rem_mem_todoOf {v : Variant} {c : Cfg} (hl : c.limit ≠ 0) (o : Op) (r 
   simp only [hl, if_false]
   split
   · split <;> simp
+  · split <;> simp
   · simp
 
 theorem inc_mem_todoOf {v : Variant} {c : Cfg} (hl : c.limit ≠ 0) (o : Op) (r : Ret) (del : List Key) (k : Key) :
@@ -568,6 +569,7 @@ theorem inc_mem_todoOf {v : Variant} {c : Cfg} (hl : c.limit ≠ 0) (o : Op) (r 
   split
   · rename_i b sz i
     split <;> simp
+  · split <;> simp
   · rename_i hne
     simp only [List.mem_cons, reduceCtorEq, List.mem_map, and_false, exists_false, or_self, false_iff]
     rintro ⟨b, sz, i, rfl, rfl, _⟩
